@@ -644,6 +644,65 @@ async fn differential_inner(hseed: u64, r: &mut Rng, inst: &ServerInstance, rep:
             return Err(sv(hseed, &ops, "e2e-response-agrees", "get_consumer_offset", json!({"consumer": cons.to_string(), "got": format!("{o:?}")})));
         }
     }
+    // requests over HTTP that are JSON but not valid requests (wrong types, out-of-range numbers, violated limits), sent with root's token:
+    // each must be refused, and the catalogue must be what it was
+    {
+        use iggy::http::HttpTransport;
+        let long = "n".repeat(256);
+        let t1s = format!("/streams/{}/topics", streams[0].0);
+        let t1m = format!("/streams/{}/topics/{}/messages", streams[0].0, tid);
+        let t1o = format!("/streams/{}/topics/{}/consumer-offsets", streams[0].0, tid);
+        let cases: Vec<(&str, String, Value)> = vec![
+            ("post", "/streams".into(), json!({"name": 5})),
+            ("post", "/streams".into(), json!({})),
+            ("post", "/streams".into(), json!({"name": ""})),
+            ("post", "/streams".into(), json!({"name": long})),
+            ("post", "/streams".into(), json!({"stream_id": -1, "name": "negative-id"})),
+            ("post", "/streams".into(), json!({"stream_id": 4294967296u64, "name": "id-too-big"})),
+            ("post", "/streams".into(), json!({"stream_id": "seven", "name": "id-is-text"})),
+            ("post", "/streams".into(), json!([1, 2, 3])),
+            ("post", t1s.clone(), json!({"name": "t-bad-count", "partitions_count": "two", "compression_algorithm": "none", "message_expiry": 0, "max_topic_size": 0})),
+            ("post", t1s.clone(), json!({"name": "t-too-many", "partitions_count": 1001, "compression_algorithm": "none", "message_expiry": 0, "max_topic_size": 0})),
+            ("post", t1s.clone(), json!({"name": "t-bad-compression", "partitions_count": 1, "compression_algorithm": "lz77", "message_expiry": 0, "max_topic_size": 0})),
+            ("post", t1s.clone(), json!({"name": "", "partitions_count": 1, "compression_algorithm": "none", "message_expiry": 0, "max_topic_size": 0})),
+            ("post", t1s.clone(), json!({"name": "t-bad-rf", "partitions_count": 1, "compression_algorithm": "none", "message_expiry": 0, "max_topic_size": 0, "replication_factor": 256})),
+            ("post", "/users".into(), json!({"username": "ab", "password": "long-enough", "status": "active"})),
+            ("post", "/users".into(), json!({"username": "valid-name", "password": "pw", "status": "active"})),
+            ("post", "/users".into(), json!({"username": "valid-name", "password": "long-enough", "status": "sleeping"})),
+            ("post", "/users".into(), json!({"username": "valid-name", "password": "long-enough", "status": "active", "permissions": "all"})),
+            ("put", t1o.clone(), json!({"offset": "ten"})),
+            ("put", t1o.clone(), json!({"partition_id": "one", "offset": 1})),
+            ("post", t1m.clone(), json!({"partitioning": {"kind": "nowhere", "value": ""}, "messages": [{"payload": "aGVsbG8="}]})),
+            ("post", t1m.clone(), json!({"partitioning": {"kind": "partition_id", "value": "AQAAAA=="}, "messages": [{"payload": "!!!not-base64!!!"}]})),
+            ("post", t1m.clone(), json!({"partitioning": {"kind": "partition_id", "value": "AQAAAA=="}, "messages": []})),
+            ("post", t1m.clone(), json!({"partitioning": {"kind": "partition_id", "value": "AQAAAA=="}, "messages": "many"})),
+        ];
+        let snap = |s: &Vec<iggy::models::stream::Stream>, u: usize| {
+            let mut x: Vec<(u32, String, u32, u64)> = s.iter().map(|s| (s.id, s.name.clone(), s.topics_count, s.messages_count)).collect();
+            x.sort();
+            json!({"streams": x, "users": u})
+        };
+        let before = snap(&timed("get_streams", tcp.get_streams()).await?.map_err(|e| Stop::Inconclusive(e.to_string()))?, timed("get_users", tcp.get_users()).await?.map_err(|e| Stop::Inconclusive(e.to_string()))?.len());
+        for (method, path, body) in cases {
+            ops.push(format!("http {method} {path} {}", body.to_string().chars().take(90).collect::<String>()));
+            rep.eval("C13:malformed-http-refused");
+            rep.op("hostile_http_request");
+            let res = match method {
+                "post" => timed("http post", http.post(&path, &body)).await?,
+                _ => timed("http put", http.put(&path, &body)).await?,
+            };
+            if let Ok(resp) = res {
+                let after = snap(&timed("get_streams", tcp.get_streams()).await?.map_err(|e| Stop::Inconclusive(e.to_string()))?, timed("get_users", tcp.get_users()).await?.map_err(|e| Stop::Inconclusive(e.to_string()))?.len());
+                return Err(sv(hseed, &ops, "malformed-http-refused", &format!("accepted/{}", path.rsplit('/').next().unwrap_or("")), json!({"method": method, "path": path, "body": body, "status": resp.status().as_u16(), "catalogue_changed": after != before})));
+            }
+            rep.event("hostile_http_request_refused");
+        }
+        let after = snap(&timed("get_streams", tcp.get_streams()).await?.map_err(|e| Stop::Inconclusive(e.to_string()))?, timed("get_users", tcp.get_users()).await?.map_err(|e| Stop::Inconclusive(e.to_string()))?.len());
+        rep.eval("C13:catalogue-untouched");
+        if after != before {
+            return Err(sv(hseed, &ops, "catalogue-untouched", "changed-by-refused-http-requests", json!({"before": before, "after": after})));
+        }
+    }
     // statistics and lists over both transports
     let a = timed("get_stats", tcp.get_stats()).await?;
     let b = timed("get_stats", http.get_stats()).await?;
